@@ -434,3 +434,10 @@ Proof.
       * apply in_or_app. right. left. reflexivity.
     + rewrite get_set_same. exists x1. repeat split; assumption.
 Qed.
+
+(** ** chains on which no module serves a service itself: messages are the plain ones *)
+Lemma exec_msg_plain_eq c s txh m : c_msvc c < 0 -> exec_msg c s txh m = exec_msg_plain c s txh m.
+Proof.
+  intros Hm. assert (E : forall svc, module_served c svc = false) by (intros svc; unfold module_served; destruct (0 <=? c_msvc c) eqn:E0; [lia|reflexivity]).
+  destruct m; simpl; rewrite ?E; reflexivity.
+Qed.
